@@ -541,6 +541,14 @@ def step (line : String) : String :=
         match field iw "msg", field iw "read" with
         | some a, some b => if a == b then answer impl true else answer s!"msg={a} read={a}" false
         | _, _ => "bad-op"
+      else if op == "unkcodec" then
+        -- a batch with an unknown compression codec: the loop LTS says `read` → errUnknownCodec is "sendError; break
+        -- readLoop" (back to the top of the outer loop, no connection, one more error for the application, nothing
+        -- delivered); the driver reports what the real loop did with its connections meanwhile
+        let s0 : RR := { offset := -2 }
+        let s1 := rrun {} s0 [.initOk 100 102, .sleepOk, .unknownCodec, .sleepOk, .initOk 100 102, .sleepOk, .unknownCodec]
+        let model := s!"errs=4 msgs={s1.msgs.length} leak=no afterclose=all"
+        answer model (s1.phase == .top && s1.errors == [0, 0] && s1.msgs.isEmpty && impl == model)
       else if op == "earlyclose" then
         -- Batch.Close before the end of the batch: Close returned nil ⇒ the Conn is at a response boundary (the next call works)
         let iw := words impl
